@@ -8,6 +8,7 @@ from __future__ import annotations
 
 import inspect
 import math
+import re
 from fractions import Fraction
 
 import numpy as np
@@ -143,10 +144,25 @@ RESERVED = {"if", "is", "then", "and", "or", "with", "not", "any", "very", "some
             "nan", "inf", "pi", "e"}
 
 
-def ident(rng, used, prefix=""):
+# "identifier names" are what the library itself keeps as an identifier (the documentation of `Op.as_identifier`: the characters
+# that are alphanumeric - str.isalnum, the Unicode classes, not the ASCII ones - or '_' are kept, a name that starts with a
+# numeric character - str.isnumeric - gets '_' in front): `température`, `tiède`, `Größe`, `λ_2`, `温度`, `x²`, `n٣` are
+# identifiers exactly as `temperature` is.  Letters with diacritics, other alphabets and scripts without case; decimal digits
+# of other scripts, digits that are not decimal (superscripts) and numeric characters that are not digits (fractions, Roman
+# numerals) after the first character.  Precomposed characters only (a combining accent is not alphanumeric).
+IDENT_FIRST_WIDE = "éèêàâçùüöäßñøåæœžšłőğþÉÈÀÜÖÄÑØÅÆŽŠŁαβγδλμπσωΩΔΣжядбшщЖЯДאבגبتثकखग温度速力あいカキ한글ªµ"
+IDENT_REST_WIDE = IDENT_FIRST_WIDE + "٠١٢٣۴۵۶०१२३０１２３４５６７８９²³¹⁴½¼¾ⅧⅣⅻ①②"
+
+
+def is_identifier(name: str) -> bool:
+    """the definition above, spelled out on the characters (a reference that does not call the library)"""
+    return bool(name) and all(c.isalnum() or c == "_" for c in name) and not name[0].isnumeric()
+
+
+def ident(rng, used, prefix="", first=IDENT_FIRST, rest=IDENT_REST):
     fm = fl.settings.factory_manager
     while True:
-        s = prefix + rng.choice(IDENT_FIRST) + "".join(rng.choice(IDENT_REST) for _ in range(rng.randrange(0, 6)))
+        s = prefix + rng.choice(first) + "".join(rng.choice(rest) for _ in range(rng.randrange(0, 6)))
         # "k" is the name of the inert substitution variable that `gen_term` gives to Function terms: an engine variable of
         # that name is a name clash that membership() rejects (C17) and that the FuzzyLite Language cannot carry
         if s in used or s.lower() in RESERVED or s in fm.function.objects or s in fm.hedge.constructors or s == "k":
@@ -499,6 +515,34 @@ def build(spec) -> fl.Engine:
                            rules=[build_rule(r) for r in b["rules"]]) for b in spec["blocks"]]
     return fl.Engine(name=spec["name"], description=spec["description"], input_variables=ins, output_variables=outs,
                      rule_blocks=blocks)
+
+
+def rename_identifiers(rng, spec):
+    """gives every variable and every referable term of the engine (in place) a new identifier over the wide alphabets above,
+    mixed with the ASCII ones, and rewrites what refers to them by name: the propositions of the rules and the variable
+    names used in Function formulas.  Returns the mapping old name -> new name."""
+    used = names_of(spec) | {k for v in spec["inputs"] + spec["outputs"] for t in v["terms"] for k in t.get("variables", {})}
+    first, rest = IDENT_FIRST_WIDE + IDENT_FIRST[:26], IDENT_REST_WIDE + IDENT_REST[:26] + "_0123456789"
+    renamed = {}
+    for v in spec["inputs"] + spec["outputs"]:
+        for holder in [v] + v["terms"]:
+            old = holder["name"]
+            if is_identifier(old) and old not in renamed:
+                while True:
+                    new = ident(rng, used, first=first, rest=rest)
+                    if any(ord(c) > 127 for c in new) or rng.random() < 0.1:
+                        break
+                renamed[old] = new
+    for v in spec["inputs"] + spec["outputs"]:
+        for holder in [v] + v["terms"]:
+            holder["name"] = renamed.get(holder["name"], holder["name"])
+            if holder.get("cls") == "Function":
+                holder["formula"] = re.sub(r"[A-Za-z_]\w*", lambda m: renamed.get(m.group(0), m.group(0)), holder["formula"])
+    for b in spec["blocks"]:
+        for r in b["rules"]:
+            for part in ("antecedent", "consequent"):
+                r[part] = " ".join(renamed.get(tok, tok) for tok in r[part].split(" "))
+    return renamed
 
 
 def heights_and_weights(spec):
